@@ -370,6 +370,13 @@ func (p *Parser) parseAmount() *ast.Amount {
 	p.advance()
 
 	if amount.Commodity.Symbol == "" {
+		if p.current.Type == TokenText && !isValidCommodityText(p.current.Value) {
+			// "1.5 hours @ $20": the lexer read a lower-case commodity word and everything
+			// after it as one text; take the word and lex the rest again.
+			if fields := strings.Fields(p.current.Value); len(fields) > 1 && isValidCommodityText(fields[0]) {
+				p.current = p.lexer.RescanWord(p.current)
+			}
+		}
 		isCommodity := p.current.Type == TokenCommodity ||
 			(p.current.Type == TokenText && isValidCommodityText(p.current.Value))
 		if isCommodity {
